@@ -113,6 +113,23 @@ def rule_r2(ctx, rid="C19.R2"):
                 ctx.r.ok(rid, "%s-side sender guarded by: %s" % (f.name, k), f.loc(n.ast))
             else:
                 ctx.r.violation(rid, key_of(f, None, "continue-guard-missing::" + k.split(" (")[0]), "send_continue() in %s is not guarded by '%s'" % (f.qual, k), f.loc(n.ast))
+        # what the guards read is read inside the lock: a local standing for self.request must have been taken while the
+        # requests lock was held (the I/O thread creates and fills the parser under that lock; a copy made before the
+        # lock was taken can be stale - None - when the test is made, and then nobody sends the interim response)
+        for (_t, pol, bnode) in g.guards(n):
+            t = bnode.ast  # the test as written (guards() shows snapshot locals expanded, which would hide the local)
+            if not (mentions_attr(t, "expect_continue") or mentions_attr(t, "headers_finished")):
+                continue
+            for x in ast.walk(t):
+                if isinstance(x, ast.Attribute) and x.attr in ("expect_continue", "headers_finished") and isinstance(x.value, ast.Name) and x.value.id != "self":
+                    defs = [d for d in ast.walk(f.node) if isinstance(d, ast.Assign) and any(isinstance(tt, ast.Name) and tt.id == x.value.id for tt in d.targets)]
+                    stale = [d for d in defs if REQ_LOCK not in lk.held_at_stmt(f, d)]
+                    if stale:
+                        ctx.r.violation(rid, key_of(f, None, "continue-guard-stale::" + x.value.id),
+                                        "the guard of send_continue() in %s reads `%s.%s` through a local bound outside the requests lock (%s): the I/O thread can create the expecting request in between, the stale copy says there is none and the client never gets its interim response"
+                                        % (f.qual, x.value.id, x.attr, norm(stale[0])[:50]), f.loc(stale[0]))
+                    else:
+                        ctx.r.ok(rid, "%s is bound under the requests lock" % x.value.id, f.loc(n.ast))
         # ... and by nothing else: the two senders split the cases on "is another request queued" only.  A further
         # condition on either side leaves an expecting client with no sender (nothing re-evaluates the test: the client
         # sends no more bytes until it got the interim response).  Conditions on the liveness of the connection and on
@@ -295,7 +312,28 @@ def rule_r7(ctx):
         ctx.r.ok(rid, "worker-side send_continue: no output access after dequeue, no teardown path")
 
 
-RULES = [rule_r1, rule_r2, rule_r3, rule_r4, rule_r5, rule_r6, rule_r7]
+def rule_r8(ctx, rid="C19.R8"):
+    ctx.r.rule(rid, "the parser reports the head as finished for every request whose head it parsed: in HTTPRequestParser.received every return taken after the end of the head was found (other than the over-limit refusal) is preceded, on every path, by headers_finished = True - both senders of the interim response require that flag, whatever the body framing is")
+    p = ctx.p
+    f = p.func("parser.HTTPRequestParser.received")
+    g = cfg_of(f)
+    stores = [n for n in g.nodes if n.kind == "stmt" and isinstance(n.ast, ast.Assign) and any(dotted(t) == "self.headers_finished" for t in n.ast.targets) and isinstance(n.ast.value, ast.Constant) and n.ast.value.value is True]
+    if not stores:
+        ctx.r.violation(rid, key_of(f, None, "headers-finished-never-set"), "HTTPRequestParser.received never sets headers_finished", f.loc())
+        return
+    # the statements that handle a found head: parse_header calls (not the synthetic one of the refusal) and the empty mark
+    starts = [n for n, c in find_calls(g, lambda c: dotted(c.func) == "self.parse_header" and not (c.args and isinstance(c.args[0], ast.Constant)))]
+    starts += [n for n in g.nodes if n.kind == "stmt" and isinstance(n.ast, ast.Assign) and any(dotted(t) == "self.empty" for t in n.ast.targets)]
+    ctx.r.floor(rid, len(starts), 2, "places where a found head is handled")
+    for sn in starts:
+        pth = g.path(sn, g.exit, avoid=stores, follow_exc=False)
+        if pth is None:
+            ctx.r.ok(rid, "after `%s` every normal way out sets headers_finished" % norm(sn.ast)[:40], f.loc(sn.ast))
+        else:
+            ctx.r.violation(rid, key_of(f, None, "headers-finished-skipped"), "received() can return after handling a complete head without setting headers_finished (%s): an `Expect: 100-continue` request on such a path is never answered with the interim response" % g.describe_path(pth), f.loc(sn.ast))
+
+
+RULES = [rule_r1, rule_r2, rule_r3, rule_r4, rule_r5, rule_r6, rule_r7, rule_r8]
 
 from ..selftest import M, T, V  # noqa: E402
 
